@@ -239,6 +239,8 @@ def rand_scenario(
         "op_cm": rng.random() < 0.2,  # the operation works inside a generator-based context manager / ExitStack
         "val_kind": "odd" if rng.random() < 0.2 else "plain",  # success values that are awaitable objects, rejected results without a repr
         "hook_set": rng.choice(["both"] * 6 + ["log", "metric"]),  # which observability sinks the caller attaches
+        # the operation's errors are raised while handling, or `from`, another error (a rejected inner circuit, a timeout underneath)
+        "exc_chain": rng.choice([None] * 8 + ["open_context", "timeout_cause", "open_cause", "abort_context", "scripted_cause", "scripted_cause"]),
     }
 
 
